@@ -221,6 +221,17 @@ def coq_eval_bools(name: str, header: str, terms: list[str], shard: int = 400, t
     """Each term is a Coq `bool` expression (model result compared with the implementation's result).
     Returns indices of terms that evaluate to false. Evaluated with vm_compute inside coqc, sharded and parallel."""
     os.makedirs(os.path.join(COQ, 'corr'), exist_ok=True)
+    # the compiled modules the header names must exist (a check must not depend on another check having built them)
+    need = []
+    for m in re.finditer(r'From PF Require (?:Import|Export)\s+(.*?)\.(?=\s|$)', header, re.S):
+        for mod in m.group(1).split():
+            rel = mod.replace('.', '/') + '.vo'
+            if not os.path.exists(os.path.join(COQ, rel)) or os.path.getmtime(os.path.join(COQ, rel)) < os.path.getmtime(os.path.join(COQ, rel[:-1])):
+                need.append(rel)
+    if need:
+        ok, out = coq_make(need, timeout=timeout)
+        if not ok:
+            raise CoqEvalError(f'cannot build {need} for {name}:\n{out[-3000:]}')
     shards = [terms[i:i + shard] for i in range(0, len(terms), shard)]
     files = []
     for k, sh in enumerate(shards):
